@@ -13,6 +13,7 @@ RELATED = {
     "C03": [("C02", ["C02.R2", "C02.R7", "C02.R8"])],                                    # replace_use discipline / tail-call rewrite keep def-use and block structure intact
     "C04": [("C06", None), ("C40", None)],                                     # x86-64 native code = selection + allocation + SysV ABI
     "C05": [("C06", None)],                                                    # every target goes through the same allocator
+    "C07": [("C10", ["C10.R1", "C10.R3"])],                                              # a relocation patches an emitted instruction: an ungated value spills out of its field into the neighbouring register field
     "C08": [("C10", ["C10.R4", "C10.R6", "C10.R7"])],                                    # a masked or overwritten operand is an encoding that disagrees with what is printed
     "C09": [("C10", ["C10.R7"])],
     "C10": [("C13", ["C13.R3"])],                                              # a shrunk relocation must still fit its (smaller) field
